@@ -49,10 +49,7 @@ impl<'a> SessionData<'a> {
                     debug!("Ignoring stale PUBACK for packet id {=u16}", ack.packet_id);
                     return Ok(false);
                 }
-                runtime.send_quota = runtime
-                    .send_quota
-                    .saturating_add(1)
-                    .min(runtime.max_send_quota);
+                runtime.restore_send_quota(self.outbound.inflight_publishes());
                 debug!(
                     "Processed PUBACK packet_id={=u16} send_quota={=u16}",
                     ack.packet_id, runtime.send_quota
@@ -65,10 +62,7 @@ impl<'a> SessionData<'a> {
                         // The send quota is only returned by a PUBREC that ends the exchange;
                         // otherwise the message stays in flight until PUBCOMP.
                         if rec.reason.code().failed() {
-                            runtime.send_quota = runtime
-                                .send_quota
-                                .saturating_add(1)
-                                .min(runtime.max_send_quota);
+                            runtime.restore_send_quota(self.outbound.inflight_publishes());
                         }
                         debug!(
                             "Processed PUBREC packet_id={=u16} send_quota={=u16}",
@@ -108,10 +102,7 @@ impl<'a> SessionData<'a> {
                     );
                     return Ok(false);
                 }
-                runtime.send_quota = runtime
-                    .send_quota
-                    .saturating_add(1)
-                    .min(runtime.max_send_quota);
+                runtime.restore_send_quota(self.outbound.inflight_publishes());
                 debug!(
                     "Processed PUBCOMP packet_id={=u16} send_quota={=u16}",
                     comp.packet_id, runtime.send_quota
